@@ -15,7 +15,7 @@ from gen import static as gen_static  # noqa: E402
 CFG = {"quick": "MC_Static_quick.cfg", "thorough": "MC_Static_thorough.cfg"}
 TARGET_INPROC = os.path.join(CACHE, "target-inproc")
 HARNESS_RS = os.path.join(HARNESS, "inproc", "harness.rs")
-FAMILY = {"C06": ["ep"], "C13": ["pt"], "C15": ["gen"], "C17": ["fw"], "C18": ["rule"], "C14": ["ep"]}
+FAMILY = {"C06": ["ep"], "C13": ["pt", "ep"], "C15": ["gen"], "C17": ["fw"], "C18": ["rule"], "C14": ["ep"]}
 REAL_DIRS = [os.path.join(REPO, "sylvia", "tests"), os.path.join(REPO, "sylvia", "examples"), os.path.join(REPO, "examples")]
 
 
